@@ -462,6 +462,12 @@ pub fn run(rep: &mut Report, thorough: bool) {
         if rep.samples.len() < 6 && (placed.load(Ordering::SeqCst) > 0 || plan.hard_error != 0) {
             rep.sample(json!({"plan": format!("{plan:?}"), "outcome": outcome, "signals_placed": placed.load(Ordering::SeqCst), "hook_events": evs.iter().take(6).collect::<Vec<_>>()}));
         }
+        // the verdict is already "violated" with plenty of witnesses: every further plan would
+        // wait out its watchdog again
+        if rep.violations_total >= 12 {
+            rep.note("stopped early: 12 violations already witnessed");
+            break;
+        }
         // logs are bounded (512 entries per thread): stop before they fill up
         if receivers.iter().any(|(s, _)| t.ctl.slot(*s, SLOT_SIGCOUNT) > 480) {
             rep.note("signal logs nearly full: remaining signal plans skipped for this target");
